@@ -1,5 +1,8 @@
 """C09 — EECC (gcmpy/covers/eecc.py) vs the Gallina model (Model/Eecc.v).
 
+The graph reaches the object through every public construction path (`_feed`); graphs beyond the reach of the
+brute-force model (mode 'big') are judged by the verified exact-cover checker alone (`c09_check_cover`).
+
 Every tie-break of the greedy loop is scripted BY CONTENT: `gcmpy.covers.eecc.choice` is replaced by a
 function that reads the clique list `C` from the caller's frame, sorts the offered candidate cliques
 lexicographically and returns the index of the r-th one (r from the script, modulo the number of
@@ -12,17 +15,29 @@ import sys
 from harness import oracles
 
 ID = "C09"
-RULE = ("case = (edge list of a simple graph in arbitrary order/orientation, m0, tie-break ranks); mode 'all' walks "
+RULE = ("case = (edge list of a simple graph in arbitrary order/orientation, m0, tie-break ranks, construction paths); the "
+        "graph reaches the EECC object through every public path - add_edges_from, add_edge, the G setter with a prebuilt "
+        "nx.Graph (vertices inserted in an order unrelated to labels, attribute data; or nx.Graph(edge list)), mutation "
+        "through the G getter (as the library's EdgeListToNetwork does), re-assignment of G on an object holding other "
+        "contents, mixtures of these over chunks of the edge list, edges handed over twice, the bound set before the graph "
+        "(about half of the fresh-object cases use another path than one add_edges_from); mode 'all' walks "
         "EVERY tie-break sequence of the real code (depth-first over the candidate counts it reports) and compares each "
         "leaf; mode 'hist' is a history of calls on one or two EECC objects (cliques queried, returned value damaged by "
-        "the caller, graph extended, m0 changed, get_EECC, graph rebuilt on the same object, get_EECC again), every call "
-        "judged against the model on the CURRENT contents; compared per run: find_cliques() as a sorted list, "
+        "the caller, graph extended through any construction path, m0 changed, get_EECC, graph rebuilt on the same object "
+        "by adding edges or by assigning a prebuilt graph to G, get_EECC again), every call "
+        "judged against the model on the CURRENT contents; mode 'big' is the CHECKER-ONLY stream: sparse graphs with "
+        "25-80 (a share up to 160) vertices, planted overlapping cliques K3-K8 plus many separate cliques (so that nearly "
+        "the whole clique list is dropped by the score-zero pass and the survivors sit at large spread-out positions), "
+        "m0 in 2..9 around the clique number, three tie-break schedules per graph, no model run (the brute force cannot "
+        "enumerate their maximal cliques): the cover is judged by the verified c09_check_cover (exact_cover_b + working "
+        "graph empty; the isolated-maximal-clique clause is NOT judged on this stream); compared per run: find_cliques() as a sorted list, "
         "limited_maximal_cliques() as a sorted list (duplicates visible), the sorted candidate cliques offered to the "
         "tie-break in every round, the cover as a multiset, has_edges() and the vertex set afterwards, that the edge list "
         "handed in is untouched, the exception class for m0 < 2 / isolated vertices; when the tie-break is drawn with "
         "another random primitive than choice(indexes) the cover must be one of the outcomes the model enumerates; "
         "non-trivial = a run with a tie between >= 2 candidates or with a maximal clique larger than m0 "
-        "(decomposition), or a history with a non-empty cover; distinct by (edges, m0, ranks/mode) or the step list")
+        "(decomposition), or a history with a non-empty cover, or a 'big' run with at least one greedy round; distinct by "
+        "(edges, m0, ranks/mode) or the step list")
 EXHAUSTIVE = {"quick": False, "thorough": True}
 EXPLANATION = ("GENERAL theorem C09_exact_cover_general / C09_full_holds: all loop-free graphs, all m0 >= 2, all tie-break "
                "schedules (invariant of the greedy loop); checker soundness general; additionally by reflection over all "
@@ -30,7 +45,12 @@ EXPLANATION = ("GENERAL theorem C09_exact_cover_general / C09_full_holds: all lo
                "checker.  Correspondence: thorough = all 1024 graphs on <= 5 labelled vertices x m0 in 2..5 x all "
                "tie-break sequences, quick = a seeded quarter of those; plus 6-vertex graphs with every tie-break (capped), "
                "random graphs to 12 vertices with planted overlapping cliques and m0 below / at / above the clique "
-               "number, histories on shared objects, and the malformed stream (m0 < 2, empty graph, isolated vertices)")
+               "number, histories on shared objects, and the malformed stream (m0 < 2, empty graph, isolated vertices); "
+               "every stream feeds the graph through all public construction paths; beyond the model's reach (25-160 "
+               "vertices) the implementation's covers are judged by the verified exact-cover checker alone "
+               "(c09_check_cover; C09_check_cover_entry_sound ties its answer to the Prop-level ExactCover of the simple "
+               "graph handed over, C09_norm_graph_spec says which graph that is) - 210 such runs in the quick tier, 2100 "
+               "in the thorough tier; that stream is sampled, not exhaustive, and does not judge IsolatedIntact")
 ASSUMPTIONS = [
     "CPython float arithmetic is IEEE-754 binary64 with round-to-nearest-even (the model's fl_round); validated on "
     "every run against the float sums the interpreter computes (c09_fl)",
@@ -52,9 +72,13 @@ LEVEL_TEXT = (
     "implementation's covers - are equivalent to these Prop-level specifications, the brute-force maximal-clique "
     "enumeration is sound and complete; (general) every scripted run is among the outcomes of eecc_all; (bounded, "
     "vm_compute, C09_exact_cover_upto_5) all 1024 edge subsets of K5 x m0 in 2..6 x every tie-break sequence pass the "
-    "executable checker.  The model (float-faithful scores, content-keyed tie-breaks) is tied to "
+    "executable checker; (general, wire level) C09_norm_graph_spec - the graph the checker entries judge is exactly the "
+    "simple graph of the edge list handed over; C09_check_cover_entry_sound / _empty / _agrees - the checker-only entry "
+    "c09_check_cover answers 1 exactly when ExactCover holds for that graph / the working graph was reported empty, and "
+    "its answers are the first two of c09_check.  The model (float-faithful scores, content-keyed tie-breaks) is tied to "
     "gcmpy/covers/eecc.py + network.py by the correspondence described in `rule`; the verified checker c09_check "
-    "judges every cover the implementation returns.")
+    "judges every cover the implementation returns on graphs within the model's reach (<= 12 vertices), c09_check_cover "
+    "(the exact-cover clauses without IsolatedIntact) the covers of the sampled 25-160 vertex graphs.")
 LEVEL_NOTE = ("Trusted: Coq kernel (+ vm_compute for the bounded theorem only); extraction + OCaml driver + harness for "
               "the correspondence; networkx find_cliques modelled not verified (compared on every case); binary64 "
               "rounding model validated against the interpreter on every run.")
